@@ -66,7 +66,7 @@ func errClass(e string) string {
 		return "listen"
 	case strings.Contains(e, "group auth failed"):
 		return "groupauth"
-	case strings.Contains(e, "different port"), strings.Contains(e, "group use different port"):
+	case strings.Contains(e, "should have same remote port"):
 		return "groupport"
 	case strings.Contains(e, "group params"):
 		return "groupparams"
@@ -89,11 +89,12 @@ func portOfAddr(addr string) int {
 // reports each StartWorkConn it receives.
 type autoPeer struct {
 	*peer.Peer
-	Alias   string
-	onStart func(ap *autoPeer, sw *msg.StartWorkConn, c net.Conn)
-	stop    chan struct{}
-	mu      sync.Mutex
-	conns   []net.Conn
+	Alias    string
+	Takeover bool // onStart owns the connection afterwards
+	onStart  func(ap *autoPeer, sw *msg.StartWorkConn, c net.Conn)
+	stop     chan struct{}
+	mu       sync.Mutex
+	conns    []net.Conn
 }
 
 func newAutoPeer(p *peer.Peer, alias string, onStart func(*autoPeer, *msg.StartWorkConn, net.Conn)) *autoPeer {
@@ -131,6 +132,9 @@ func (ap *autoPeer) loop() {
 			}
 			if ap.onStart != nil {
 				ap.onStart(ap, &sw, c)
+			}
+			if ap.Takeover {
+				return
 			}
 			// keep the connection open until the server closes it
 			buf := make([]byte, 4096)
